@@ -55,10 +55,13 @@ GateVal(m, nd, v) ==
 \* meaning of "that signal is driven with the overwritten values" (C16): downstream sees ovv, upstream does not.
 EvalO(st, m, asg, ovl, ovv) ==
   LET nl == NLinesOf(st)
+      sn == SNodes(st)                                   \* (bound once per evaluation, not once per node)
+      sset == {sn[i] : i \in 1..Len(sn)}
+      sidx(n) == CHOOSE i \in 1..Len(sn) : sn[i] = n
       step(v, n) ==
         LET nd == NodeOf(st, n)
-            isS == n \in SSet(st)
-            base == IF isS THEN asg[SIdx(st, n)]
+            isS == n \in sset
+            base == IF isS THEN asg[sidx(n)]
                     ELSE IF nd.kind = FORK THEN PinVal(nd, 0, v)
                     ELSE GateVal(m, nd, v)
             \* interface elements and forks drive every connected output pin, gates only pin 0;
